@@ -68,10 +68,88 @@ def external_table():
     return _EXTERNAL
 
 
-def ascii_text(v, depth=0):
-    """a str obtained by decoding input bytes as ASCII (or pieces of one): encoding it back cannot fail"""
-    if depth > 6:
+_ASCII_CLASS = {}
+
+
+def text_class_is_ascii(model, k, depth=0):
+    """does every piece of text an object parsed by text class ``k`` can hold come out of a ParserText that decodes ASCII?
+    all parsers its _parse creates are text parsers with the ascii encoding, and the same holds for the classes it parses
+    its items with.  (A str decoded as ASCII can be encoded as ASCII again.)"""
+    key = getattr(k, 'qualname', None) or getattr(k, 'name', None)
+    if key in _ASCII_CLASS:
+        return _ASCII_CLASS[key]
+    _ASCII_CLASS[key] = False           # cycles: not decided
+    if depth > 4 or not hasattr(k, 'resolve') or k.resolve('_parse') is None or k.resolve('_parse').abstract:
         return False
+    from .interp import Interp
+    from .trace import Op, walk
+    try:
+        res = Interp(model).run(k, '_parse')
+    except Exception:      # pylint: disable=broad-except
+        return False
+    ok = bool(res.parsers) and all(p.kind == 'text' and p.encoding == 'ascii' for p in res.parsers)
+    if ok:
+        for n in walk(res.block):
+            if isinstance(n, Op) and n.side == 'parse':
+                for name in ('item_class', 'fallback_class', 'parsable_class'):
+                    v = n.args.get(name)
+                    if isinstance(v, ClassV) and isinstance(v.cls, ClassInfo) and model.is_parsable(v.cls) and v.cls is not k:
+                        if not text_class_is_ascii(model, v.cls, depth + 1):
+                            ok = False
+    _ASCII_CLASS[key] = ok
+    return ok
+
+
+_ASCII_METHOD = {}
+
+
+def method_returns_ascii_literals(model, name):
+    """does every concrete repository method called ``name`` return ASCII string literals (or the code of an enum member) only
+    (``get_canonical_name``)?"""
+    if name in _ASCII_METHOD:
+        return _ASCII_METHOD[name]
+    from .astutil import returned
+    import ast as _ast
+    fs = [f for f in model.functions() if f.name == name and not f.module.external and not f.abstract]
+    ok = bool(fs)
+    for f in fs:
+        rets = returned(f.node)
+        def literal(r):
+            if isinstance(r, _ast.Constant) and isinstance(r.value, str) and all(ord(ch) < 128 for ch in r.value):
+                return True
+            # the code of an enum member of the data tables (header field names, registry names: ASCII by their grammar)
+            return isinstance(r, _ast.Attribute) and r.attr == 'code' and isinstance(r.value, _ast.Attribute) and r.value.attr == 'value'
+        if not rets or not all(literal(r) for r in rets):
+            ok = False
+    _ASCII_METHOD[name] = ok
+    return ok
+
+
+def ascii_text(v, depth=0, model=None):
+    """a str obtained by decoding input bytes as ASCII (or pieces of one): encoding it back cannot fail"""
+    if depth > 8:
+        return False
+    if model is not None and isinstance(v, Sym):
+        if v.op == 'parsed' and v.args and isinstance(v.args[0], ClassV) and isinstance(v.args[0].cls, ClassInfo):
+            return text_class_is_ascii(model, v.args[0].cls)
+        if v.op == 'attr' and v.args:
+            return ascii_text(v.args[0], depth + 1, model)        # a field of an object all of whose text is ASCII
+        if v.op == 'call' and v.args and isinstance(v.args[0], Sym) and v.args[0].op == 'attr':
+            recv, name = v.args[0].args[0], v.args[0].args[1]
+            if name in ('pop', 'get', 'keys', 'values', 'items', 'popitem', 'copy') and ascii_text(recv, depth + 1, model):
+                return True             # an entry of a mapping held by such an object
+            if len(v.args) == 1 and method_returns_ascii_literals(model, name):
+                return True
+        if v.op in ('index', 'slice', 'elem', 'phi', 'loopacc', 'repeat', 'loopvar') and v.args:
+            # alternatives that are certainly not text (None, numbers, enum members, classes, bytes) cannot make an *encoding* fail
+            return all(ascii_text(a, depth + 1, model) for a in v.args
+                       if not isinstance(a, (int, float, bytes, type(None), EnumMember, ClassV, FuncV, ObjV, tuple, DictV)))
+        if v.op == 'join':
+            return is_const(v.args[0]) and ascii_text(v.args[1], depth + 1, model)
+        if v.op == 'add':
+            return all(is_const(a) or ascii_text(a, depth + 1, model) for a in v.args)
+    if model is not None and isinstance(v, ListV):
+        return all(ascii_text(a, depth + 1, model) for a in v.items)
     if isinstance(v, FieldV):
         p = v.parser
         return p.kind == 'text' and p.encoding == 'ascii' and v.op is not None and \
@@ -359,7 +437,7 @@ class CallMixin:
             elif name == 'decode':
                 self.risk(fr, 'decode', ('builtins.UnicodeDecodeError',), base, node)
             elif name == 'encode':
-                if not ascii_text(base):
+                if not ascii_text(base, 0, self.model):
                     self.risk(fr, 'encode', ('builtins.UnicodeEncodeError',), base, node)
             else:
                 ex = external_table()['methods'].get(name)
@@ -757,7 +835,7 @@ class CallMixin:
         if d in ('six.ensure_text', 'six.ensure_str') and args and not is_const(a0) and not lenient:
             enc = args[1] if len(args) > 1 else kwargs.get('encoding', 'utf-8')
             self.risk(fr, 'decode', ('builtins.UnicodeError',) if enc == 'idna' else ('builtins.UnicodeDecodeError',), a0, node)
-        if d == 'six.ensure_binary' and args and not is_const(a0) and not ascii_text(a0):
+        if d == 'six.ensure_binary' and args and not is_const(a0) and not ascii_text(a0, 0, self.model):
             enc = args[1] if len(args) > 1 else kwargs.get('encoding', 'utf-8')
             self.risk(fr, 'encode', ('builtins.UnicodeError',) if enc == 'idna' else ('builtins.UnicodeEncodeError',), a0, node)
         if d in ('six.ensure_text', 'six.ensure_binary', 'six.ensure_str', 'six.text_type', 'six.u', 'six.b'):
